@@ -86,8 +86,10 @@ type scriptReader struct {
 	cancelAt int
 	cancel   context.CancelFunc
 	calls    int // script outcomes handed out
-	mu       sync.Mutex
-	errPos   map[error]int
+	// reads answered after the scan was cancelled (the first one is the read that noticed it)
+	afterCancel int
+	mu          sync.Mutex
+	errPos      map[error]int
 }
 
 func (s *scriptReader) ReadPacketData() ([]byte, *gopacket.CaptureInfo, error) {
@@ -96,8 +98,13 @@ func (s *scriptReader) ReadPacketData() ([]byte, *gopacket.CaptureInfo, error) {
 	s.stamps = append(s.stamps, time.Now())
 	if s.cancelAt >= 0 && s.calls == s.cancelAt {
 		// cancellation observed at the loop head before read `cancelAt`: cancel, hand out a no-op
-		// (would-block) so that the loop comes round to its ctx check
+		// (would-block) so that the loop comes round to its ctx check.  A socket that keeps saying "nothing there"
+		// after that is normal; a receiver that keeps asking is not: after 2000 more reads the script ends it (EOF)
 		s.cancel()
+		s.afterCancel++
+		if s.afterCancel > 2000 {
+			return nil, nil, io.EOF
+		}
 		return nil, nil, syscall.EAGAIN
 	}
 	if s.calls >= len(s.syms) {
@@ -159,7 +166,7 @@ func runRecvPause(syms string) string {
 	rd := &scriptReader{syms: syms, cancelAt: -1, cancel: cancel, errPos: errPos}
 	pr := &scriptProc{errPos: errPos}
 	errc := packet.NewReceiver(rd, pr).ReceivePackets(ctx)
-	timeout := time.After(60 * time.Second)
+	timeout := time.After(20 * time.Second)
 loop:
 	for {
 		select {
@@ -235,9 +242,14 @@ loop:
 	}
 	pr.mu.Unlock()
 	rd.mu.Lock()
-	calls := rd.calls
+	calls, after := rd.calls, rd.afterCancel
 	rd.mu.Unlock()
-	return fmt.Sprintf("p=%s;r=%s;c=%d;closed=%d", strings.Join(procs, ","), strings.Join(reported, ","), calls, closed)
+	out := fmt.Sprintf("p=%s;r=%s;c=%d;closed=%d", strings.Join(procs, ","), strings.Join(reported, ","), calls, closed)
+	if after > 2 {
+		// the receiver went on reading after the cancellation it had been shown: "cancellation ends it" does not hold
+		out += fmt.Sprintf(";reads-after-cancel=%d", after)
+	}
+	return out
 }
 
 const recvAlphabet = "FPartosnedugcbfwxp"
